@@ -69,11 +69,17 @@ Proof.
   apply (ProofsQuery.s_equal_iff cmp TO eqv); auto; apply (SpecFacts.s_build_from_sorted cmp TO _ []); exact I.
 Qed.
 
-(** Early exit: in every traversal order a visitor that stops after [j] visits has seen exactly
-    the first [j] entries of the full traversal (for any tree). *)
+(** Early exit through the public Traverse (and All): in every traversal order a visitor that
+    accepts [j] pairs and then returns false has seen exactly the first [j] entries of the full
+    traversal and has been called [min (j+1) n] times — never again after it said stop (any tree).
+    For ascending / descending orders both are part of [C01_refines] (output [OListN]). *)
 Theorem C01_early_exit :
-  forall (K V : Type) (o : order) (j : nat) (t : tree K V), trav_stop o j t = firstn j (trav_list o t).
-Proof. intros K V o j t. exact (ProofsQuery.trav_stop_prefix o j t). Qed.
+  forall (K V : Type) (o : order) (j : nat) (t : tree K V),
+    trav_stop o j t = firstn j (trav_list o t) /\
+    trav_stop_calls o j t = Nat.min (S j) (length (trav_list o t)).
+Proof.
+  intros K V o j t. exact (conj (ProofsQuery.trav_stop_prefix o j t) (ProofsQuery.trav_stop_calls_ok o j t)).
+Qed.
 
 (** The comparators the harness uses are instances of the hypothesis (non-vacuity of
     [TotalOrder]): ascending, reverse, three difference-valued ones (a-b, b-a, 3*(a-b): results of magnitude other
